@@ -103,7 +103,8 @@ async def request(
                 errors.APIForbiddenError, errors.APITooManyRequestsError) as e:
 
             # If we are asked to retry later, do so, and obey the requested backoff.
-            if isinstance(e, errors.APITooManyRequestsError):
+            # NB: not only HTTP 429: the API servers also send it with 503/504 (overload/timeouts).
+            if isinstance(e, errors.APIError):
                 # NB: header names are case-insensitive (HTTP/2 & proxies send "retry-after"),
                 # but APIError keeps them in a plain (case-sensitive) dict.
                 header = next((v for k, v in (e.headers or {}).items()
